@@ -22,7 +22,7 @@ from . import params_common as pc
 
 MODULE = "sim/Runner.tla"
 DEVS = ["FirstRepSkipEscapes", "SkipCounted", "GuardLE", "OrderByInsertion"]
-INVS = ["RepIsMergedCount", "NoSkipMerged", "NoOverrun", "AttemptsAccounted", "StopReason", "NoEscape", "Complete", "CallOrder"]
+INVS = ["RepIsMergedCount", "NoSkipMerged", "NoOverrun", "AttemptsAccounted", "StopReason", "NoEscape", "Complete", "CallOrder", "HookOrder"]
 
 
 def model(gridlens, repmaxes, kgkinds, skipsets, modes, maxsim=1, exhaustive=2, dev=(), emit=True):
@@ -118,6 +118,16 @@ def build_runner(case, log, workdir=None):
 
         def _on_simulate_current_params_start(self, current_params):
             self.attempt[var_of(current_params)] = 0
+            log.append(["call", var_of(current_params), 0, "start"])
+
+        def _on_simulate_current_params_finish(self, current_params, current_params_sim_results=None):
+            log.append(["call", var_of(current_params), 0, "finish"])
+
+        def _on_simulate_start(self):
+            log.append(["call", 0, 0, "simstart"])
+
+        def _on_simulate_finish(self):
+            log.append(["call", 0, 0, "simfinish"])
 
     return Runner()
 
